@@ -645,6 +645,10 @@ class StmtMixin:
     def s_Try(self, s, env, nxt):
         """two idioms:  try: <abstract call> except K: raise E  (the outcome of the abstract call is an input);
         try: return d[k] except KeyError: pass  (dictionary lookup with fall-through)"""
+        if not s.orelse and not s.finalbody and s.handlers and all(self.reraises_same(h) for h in s.handlers):
+            # try: body  except E [as e]: raise E(message) [from e]   — the same exception class with another message:
+            # transparent at the level of exception classes
+            return self.block(s.body, env, nxt)
         if s.orelse or s.finalbody or len(s.handlers) != 1 or len(s.body) != 1:
             raise Unsupported("try statement outside the idiom")
         h = s.handlers[0]
@@ -684,6 +688,20 @@ class StmtMixin:
         handler = self.block(h.body, env, lambda e: self.unsup_fall())
         self.raised += 1
         return "Py.tryExcept {} Err{} ({}) (fun _ =>\n{})".format(ob, EXC[h.type.id], handler, indent(nxt(env)))
+
+    @staticmethod
+    def reraises_same(h):
+        if not (isinstance(h.type, ast.Name) and h.type.id in EXC and len(h.body) == 1 and isinstance(h.body[0], ast.Raise)):
+            return False
+        r = h.body[0]
+        exc = r.exc
+        if isinstance(exc, ast.Call):
+            if any(not isinstance(a, (ast.Constant, ast.Name)) for a in exc.args) or exc.keywords:
+                return False
+            exc = exc.func
+        if not (isinstance(exc, ast.Name) and exc.id == h.type.id):
+            return False
+        return r.cause is None or (isinstance(r.cause, ast.Name) and r.cause.id == h.name)
 
     def unsup_fall(self):
         raise Unsupported("exception handler that falls through")
